@@ -285,3 +285,20 @@ pub proof fn lemma_one_line_around(b: Seq<u8>, t: u8, i: int)
         if j < i { } else { }
     }
 }
+
+/// a line start at or before i is at or before the start of i's line
+pub proof fn lemma_line_start_of_ge(b: Seq<u8>, t: u8, ls: int, i: int)
+    requires 0 <= ls <= i <= b.len(), is_line_start(b, t, ls),
+    ensures ls <= line_start_of(b, t, i),
+    decreases i - ls,
+{
+    if i > ls && b[i - 1] != t {
+        lemma_line_start_of_ge(b, t, ls, i - 1);
+    }
+}
+
+/// spec of lines::locate: the whole lines containing [s, e)
+pub open spec fn loc_s(b: Seq<u8>, t: u8, s: int, e: int) -> int { line_start_of(b, t, s) }
+pub open spec fn loc_e(b: Seq<u8>, t: u8, s: int, e: int) -> int {
+    if e > line_start_of(b, t, s) && b[e - 1] == t { e } else { line_end_from(b, t, e) }
+}
